@@ -1188,9 +1188,23 @@ def _install(ip):
 def mark_collections(ip, cls, self_obj):
     """Attributes that other methods append to / index-assign (self._interfaces, self._endpoints, ...)
     are runtime collections: loops over them are analysed for one symbolic element."""
+    # methods reachable from elaborate() via self.<m>(...) run concretely: what they add is known
+    reach, work = set(), ['elaborate', '__init__']
+    while work:
+        mn = work.pop()
+        if mn in reach:
+            continue
+        reach.add(mn)
+        hit = ip.index.find_method(cls, mn)
+        if not hit:
+            continue
+        for n in ast.walk(hit[1]):
+            if isinstance(n, ast.Call) and isinstance(n.func, ast.Attribute) and isinstance(n.func.value, ast.Name) \
+                    and n.func.value.id == 'self':
+                work.append(n.func.attr)
     for c in ip.index.mro(cls):
         for mname, fnode in c.methods.items():
-            if mname in ('__init__', 'elaborate'):
+            if mname in reach:
                 continue
             ann = {a.arg: a.annotation for a in fnode.args.args if a.annotation is not None}
             for n in ast.walk(fnode):
